@@ -37,4 +37,8 @@ CONTRACTS = [
     c("stale", "unsupported", params={"d": D, "k": Ty.Key}, requires=["k in d"], returns=D, ensures=["True"]),
     c("loop_then_read", "ok", params={"d": D, "k": Ty.Key}, requires=["k in d"], returns=Ty.Bool, nloops=1,
       loops={0: Loop(seen="S", inv=[KEEP, "forall(S, lambda q: 5 in d[q])"])}, ensures=["result"]),
+    # bit operations are uninterpreted: only what the control flow establishes is known
+    c("overlap", "ok", params={"a": Ty.Int, "b": Ty.Int}, returns=Ty.Int, ensures=["(result == 1) == (bitand(a, b) != 0)"],
+      externals={"bitand": lambda e, st, a, n, k: Ty.V(Ty.Int, [e.specfns["bitand"][0](e.num(a[0]), e.num(a[1]))])}),
+    c("overlap", "fail", variant="wrong", params={"a": Ty.Int, "b": Ty.Int}, requires=["a == 1 and b == 2"], returns=Ty.Int, ensures=["result == 0"]),
 ]
